@@ -48,7 +48,7 @@ RoundTripCells ==
 \* key2jwk names JOSE curves only (P-256/384/521, secp256k1): other curves are outside its documented scope
 ConvBases == { b \in DOMAIN AsymBase : AsymBase[b].kty # "EC" \/ AsymBase[b].crv \in {"P-256", "P-384", "P-521", "secp256k1"} }
 KeyConvCells ==
-  { [op |-> "ToolKeyConv", key |-> AsymKey(b, p, NONE, NONE)] : b \in ConvBases \cup PssBases, p \in {0, 1} }
+  { [op |-> "ToolKeyConv", key |-> AsymKey(b, p, NONE, NONE)] : b \in ConvBases \cup DOMAIN ExtraBase, p \in {0, 1} }
   \cup { [op |-> "ToolKeyConv", key |-> OctKey(n, v, NONE, NONE)] : n \in {32, 33, 47, 48, 64, 100, 512}, v \in {"a", "b"} }
   \* raw key files whose last / first octet is a newline, CR, NUL, space, '=' or 0xff: every octet is key material
   \cup { [op |-> "ToolKeyConv", key |-> OctKey(n, v, NONE, NONE)] : n \in {32, 48, 65},
